@@ -455,14 +455,33 @@ func genListHistory(t *rapid.T) (*history, []string) {
 		hs.Init = append(hs.Init, rapid.IntRange(0, 10).Draw(t, "init"))
 	}
 	nops := rapid.IntRange(1, 25).Draw(t, "nops")
-	size := n0
 	mut := map[string]bool{}
+	// long lists that grow and are drained again (storage is reallocated / reused on the way)
+	long := rapid.IntRange(0, 7).Draw(t, "long") == 0
+	drain := "shift"
+	if long {
+		n1 := rapid.IntRange(20, 160).Draw(t, "n1")
+		for i := n0; i < n1; i++ {
+			hs.Init = append(hs.Init, rapid.IntRange(0, 10).Draw(t, "init"))
+		}
+		n0 = n1
+		nops = rapid.IntRange(n1/2, n1+40).Draw(t, "nops-long")
+		drain = rapid.SampledFrom([]string{"shift", "shift", "pop", "append", "prepend"}).Draw(t, "drain")
+		mut["long"] = true
+	}
+	size := n0
 	multi := rapid.Bool().Draw(t, "multi") // several collections with copies between them
 	for i := 0; i < nops; i++ {
 		k := rapid.SampledFrom([]string{"get", "get", "set", "append", "append", "prepend", "shift", "pop", "swap", "merge", "first-set", "last-set", "reverse", "contains", "find", "find", "copy", "merge-collections"}).Draw(t, "op")
+		if long && rapid.IntRange(0, 9).Draw(t, "drainop") < 8 {
+			k = drain
+		}
 		o := op{Op: k}
 		if multi {
 			o.S = rapid.IntRange(0, nSlots-1).Draw(t, "slot")
+		}
+		if long && k == drain {
+			o.S = 0 // the long collection
 		}
 		if k == "copy" {
 			if !multi {
